@@ -17,9 +17,10 @@ RULE = (
     "non-trivial = history with >=1 tie, >=1 fixed and >=1 complex parameter; distinct = operation sequence digest."
 )
 ASSUMPTIONS = [
-    "coordinate switches are not applied to complex parameters whose r or phi is separately tied or bounded (the library's standard_complex skips them)",
+    "polar <-> Cartesian switches are not applied to complex parameters whose r or phi is separately tied or bounded; standardising (std_polar, std_polar_all, trans_params(True)) is applied to shared-radius parameters too",
     "values compared exactly for assignments/read-write-all, 1e-12 relative for coordinate switches, slopes vs central finite differences 1e-6",
     "refresh_vars is allowed to change free parameters only",
+    "a complex parameter is either tied as a whole (set_same cplx / sameas) or shares its radius (set_share_r), not both: the combination is not generated",
 ]
 REQUIRE = {
     "monitors": {"invariant: VarsManager structure (icontract)": 500, "model: fixed parameters change only when assigned": 200,
@@ -132,18 +133,29 @@ def run(ctx):
                     log.append(("config", "set_fix", nm))
         constrained = set()  # complex names whose components are separately tied / bounded
         # ties
-        if len(reals) >= 2 and rng.random() < 0.7:
+        if len(reals) >= 4 and rng.random() < 0.35:
+            # several var_equal statements that overlap: two pairs, then a statement bridging them (one merged group of four)
+            pick = [str(x) for x in rng.choice(reals, size=4, replace=False)]
+            for grp in ([pick[0], pick[1]], [pick[2], pick[3]], [pick[int(rng.integers(2))], pick[2 + int(rng.integers(2))]]):
+                vm.set_same(list(grp))
+                log.append(("config", "set_same", grp))
+            ctx.covered("tie_statements", "overlapping")
+        elif len(reals) >= 2 and rng.random() < 0.7:
             grp = list(rng.choice(reals, size=int(rng.integers(2, min(3, len(reals)) + 1)), replace=False))
             vm.set_same(list(grp))
             log.append(("config", "set_same", grp))
+            ctx.covered("tie_statements", "single")
         if len(cplx) >= 2 and rng.random() < 0.5:
             grp = [str(x) for x in rng.choice(cplx, size=2, replace=False)]
             # complex ties require the same coordinate form
             if vm.complex_vars[grp[0]] == vm.complex_vars[grp[1]]:
                 vm.set_same(list(grp), cplx=True)
                 log.append(("config", "set_same_cplx", grp))
-        if len(cplx) >= 2 and rng.random() < 0.3:
-            grp = [str(x) for x in rng.choice(cplx, size=2, replace=False)]
+        whole_tied = {x for g in vm.same_list for x in g if x in vm.complex_vars}
+        free_cplx = [c for c in cplx if c not in whole_tied]
+        if len(free_cplx) >= 2 and rng.random() < 0.3:
+            # (a complex parameter is either tied as a whole or shares its radius, not both - see ASSUMPTIONS)
+            grp = [str(x) for x in rng.choice(free_cplx, size=2, replace=False)]
             vm.set_share_r(list(grp))
             constrained.update(grp)
             log.append(("config", "set_share_r", grp))
@@ -229,7 +241,8 @@ def run(ctx):
                     vm.refresh_vars()
                     free_may_change = True
                 elif op in ("rp2xy", "xy2rp", "std_polar"):
-                    cand = [c for c in vm.complex_vars if not comp_tied_or_bounded(c)]
+                    # standardising is also applied to complex parameters that share their radius (set_share_r): every partner keeps its value
+                    cand = [c for c in vm.complex_vars if not comp_tied_or_bounded(c) or (op == "std_polar" and c in constrained and c + "r" not in vm.bnd_dic and c + "i" not in vm.bnd_dic)]
                     if not cand:
                         continue
                     nm = str(rng.choice(cand))
@@ -240,10 +253,15 @@ def run(ctx):
                             switched.update(x[:-1] for x in g if x.endswith("r"))
                     desc += [nm]
                 elif op in ("rp2xy_all", "xy2rp_all", "std_polar_all", "trans_params"):
-                    if any(comp_tied_or_bounded(c) for c in vm.complex_vars):
+                    pol = bool(rng.random() < 0.5)
+                    standardising = op == "std_polar_all" or (op == "trans_params" and pol)
+                    # standardising applies to shared-radius parameters as well (their partners keep their values); the polar <-> Cartesian
+                    # switches do not apply to separately tied or bounded components
+                    blockers = [c for c in vm.complex_vars if comp_tied_or_bounded(c)
+                                and not (standardising and c in constrained and c + "r" not in vm.bnd_dic and c + "i" not in vm.bnd_dic)]
+                    if blockers:
                         continue
                     if op == "trans_params":
-                        pol = bool(rng.random() < 0.5)
                         vm.trans_params(pol)
                         desc += [pol]
                     else:
@@ -259,8 +277,6 @@ def run(ctx):
                         ctx.check("model: masked read returns the mask value", rd == 0.625, {"name": nm, "read": rd}, mechanism="mask_params read")
                     desc += [nm]
                 elif op == "temp":
-                    if vm.bnd_dic:
-                        continue  # temp_params with installed bounds mixes coordinates (C08/C17 territory)
                     names = [str(x) for x in rng.choice(list(vm.variables), size=int(rng.integers(1, 3)), replace=False)]
                     with vm.temp_params({nm: float(rng.uniform(-1, 1)) for nm in names}):
                         pass
@@ -270,11 +286,15 @@ def run(ctx):
                     if not tv:
                         continue
                     nm = str(rng.choice(tv))
-                    if rng.random() < 0.5 and nm not in vm.bnd_dic:
+                    if rng.random() < 0.5:
                         val = float(rng.uniform(-1, 1))
                         vm.set_fix(nm, value=val)
                         assigned.add(nm)
                         desc += [nm, val]
+                        got_ = float(vm.get(nm, val_in_fit=False))
+                        ctx.check("model: fixed parameters change only when assigned", abs(got_ - val) <= 1e-12 * (1 + abs(val)),
+                                  lambda: {"name": nm, "assigned": val, "read": got_, "bounded": nm in vm.bnd_dic, "history": log[-6:]},
+                                  mechanism="set_fix(name, value) reads back another value" + (" (bounded)" if nm in vm.bnd_dic else ""))
                     else:
                         vm.set_fix(nm)
                         desc += [nm]
@@ -333,7 +353,7 @@ def run(ctx):
                 if c in before["complex"] and c in after["complex"] and c + "r" in before["values"]:
                     z0, z1 = cval(before, c), cval(after, c)
                     ok = abs(z1 - z0) <= 1e-12 * max(1.0, abs(z0))
-                    ctx.check("model: coordinate switch preserves the complex value", ok, lambda: {"op": desc, "name": c, "before": [z0.real, z0.imag], "after": [z1.real, z1.imag], "history": log[-8:]},
+                    ctx.check("model: coordinate switch preserves the complex value", ok, lambda: {"op": desc, "name": c, "before": [z0.real, z0.imag], "after": [z1.real, z1.imag], "polar_before": before["complex"].get(c), "polar_after": after["complex"].get(c), "config": [x for x in log if x[0] == "config"], "history": log[-8:]},
                               mechanism="complex value changed by " + op)
                     if op in ("std_polar", "std_polar_all", "standard_complex") or (op == "trans_params" and desc[-1] is True):
                         if after["complex"][c] is True:
